@@ -74,8 +74,12 @@ type c23Conn struct {
 func (c *c23Conn) Read(p []byte) (int, error)  { return c.r.Read(p) }
 func (c *c23Conn) Write(p []byte) (int, error) { c.out = append(c.out, p...); return len(p), nil }
 func (c *c23Conn) Close() error                { return nil }
-func (c *c23Conn) LocalAddr() stdnet.Addr      { return &stdnet.TCPAddr{IP: stdnet.IPv4(127, 0, 0, 1), Port: 1} }
-func (c *c23Conn) RemoteAddr() stdnet.Addr     { return &stdnet.TCPAddr{IP: stdnet.IPv4(127, 0, 0, 1), Port: 2} }
+func (c *c23Conn) LocalAddr() stdnet.Addr {
+	return &stdnet.TCPAddr{IP: stdnet.IPv4(127, 0, 0, 1), Port: 1}
+}
+func (c *c23Conn) RemoteAddr() stdnet.Addr {
+	return &stdnet.TCPAddr{IP: stdnet.IPv4(127, 0, 0, 1), Port: 2}
+}
 func (c *c23Conn) SetDeadline(time.Time) error { return nil }
 func (c *c23Conn) SetReadDeadline(time.Time) error {
 	return nil
